@@ -124,7 +124,7 @@ def run(ctx: Ctx) -> None:
     for o in sub.obligations:
         if o.construct.endswith(':branches'):
             nb += 1
-            ctx.add('C06.R5', o.construct, o.ok, (o.file, o.line), o.message, o.detail)
+            ctx.adopt('C06.R5', o)
     if nb < 5:
         raise AnalysisError(f'C06.R5: only {nb} pairs of availability branches found in the MEV builders')
 
